@@ -248,6 +248,7 @@ structure Loaded (α : Type) where
   shape : List Nat
   data : List α
   field : Option Str
+  deriving DecidableEq
 
 /-! ## text: sessions — several `save` / `load` calls in one process
 
@@ -280,6 +281,7 @@ inductive Reply (α : Type) where
   /-- genfromtxt raised -/
   | raised
   | loaded (l : Loaded α)
+  deriving DecidableEq
 
 /-- `textimage.load(path, delimiter=delim, name=name)` on a file with this text -/
 def loadReply (conv : Str → α) (delim : Option Char) (name : Option Str) (file : Str) : Reply α :=
